@@ -481,7 +481,15 @@ func RunC05(r *core.Run) {
 			ab := rr.Intn(len(other) + 1)
 			core.Guard(func() {
 				sipsp.ParseSIPMsg(other[:ab], 0, &o.m, cfg.MsgFlags&^sipsp.SIPMsgNoMoreDataF)
-				doReset(o, rr.Intn(rkCount), cfg)
+				if rr.Intn(3) == 0 {
+					// the caller cycles through its arrays with Init: own -> built-in -> own again
+					hs, cs := callerHdrs(&o.m, cfg), callerContacts(&o.m, cfg)
+					o.m.Init(nil, nil, nil)
+					sipsp.ParseSIPMsg(other[:ab/2], 0, &o.m, 0)
+					o.m.Init(nil, hs, cs)
+				} else {
+					doReset(o, rr.Intn(rkCount), cfg)
+				}
 			})
 			w.Inc("reused_objects")
 		}
